@@ -157,7 +157,16 @@ def generate_derived(rng):
         vals = [bounded(rng, ax["width"], 0.0, 300 if ndim == 1 else 16) for ax in axes]
         entries.append([vals[0] if ndim == 1 else vals, build.draw_weight(rng, wkind)])
     cfg = {"ndim": ndim, "axes": axes, "weights": wkind, "exact": True, "method": method,
-           "bin_count": rng.choice([None, 3, 7, 20]), "include_width": rng.random() < 0.7}
+           "bin_count": rng.choice([None, 3, 7, 20]), "include_width": rng.random() < 0.7,
+           # right-edge inclusion of the derived binning (a documented option of the factories)
+           "ire": rng.random() < 0.3, "far": rng.random() < 0.2}
+    if cfg["far"]:
+        # the same data shapes far from the origin (bins narrow compared with the magnitude of the edges)
+        for e in entries:
+            if ndim == 1:
+                e[0] = e[0] + 1000.0
+            else:
+                e[0] = [x + 1000.0 for x in e[0]]
     return {"property": PROPERTY, "scenario": "derived_static", "config": cfg, "entries": entries,
             "ops": [{"op": "construct"}]}
 
@@ -528,6 +537,8 @@ def execute_derived(plan, ctx):
                 return
     weights = None if cfg["weights"] == "none" else np.asarray([e[1] for e in entries])
     kw = {} if weights is None else {"weights": weights}
+    if cfg.get("ire") and method in ("fixed_width", "pretty"):
+        kw["includes_right_edge"] = True
     if method == "fixed_width":
         kw["bin_width"] = cfg["axes"][0]["width"] if ndim == 1 else [a["width"] for a in cfg["axes"]]
     elif method == "integer":
